@@ -22,6 +22,7 @@ bytecode verifier of C04 and the handler mechanics of C08 rely on:
 import Yarel.Gen.Fns
 import Yarel.Props.FnsTie.Base
 import Yarel.Model.StmtSkeleton
+import Yarel.Props.C05Tables
 
 namespace Yarel.FnsTie
 open Yarel Yarel.Gen Yarel.StmtSkeleton
@@ -66,7 +67,7 @@ the block's scope ends, whatever clauses follow. -/
 theorem try_flag_brackets_the_try_block (b : Bool) (p q j c : Int) (hc hf : Bool) :
     (trySkeleton b p q j c hc hf).filter (fun e => e.callee = "store self.compiler().in_try_block") = [storeInTry true, storeInTry b]
       ∧ (trySkeleton b p q j c hc hf).take 9 =
-          [storeInTry true, emitOp .PushExcHandler, ⟨"self.emit_bytes", [.s "[0xff,0xff]"]⟩, ⟨"self.emit_bytes", [.s "[0xff,0xff]"]⟩,
+          [storeInTry true, emitOp .PushExcHandler, ⟨"self.emit_bytes", [.s "0xff", .s "0xff"]⟩, ⟨"self.emit_bytes", [.s "0xff", .s "0xff"]⟩,
            consume .LeftBrace "Expected '{' after 'try'.", call0 "self.begin_scope", call0 "self.block", call0 "self.end_scope",
            storeInTry b] := by
   cases hc <;> cases hf <;> simp [trySkeleton, storeInTry, emitOp, matchTok, call0, consume]
@@ -123,6 +124,117 @@ theorem condition_value_popped_on_both_sides (a b : Int) (c d : Bool) (p : Excep
       ∧ ((whileSkeleton a b p).drop 9).take 2 = [patchJump b, emitOp .Pop] := by
   simp [ifSkeleton, whileSkeleton]
 
+/-! ## Expressions -/
+
+/-- Every binary operator of the language: the right operand is parsed one level tighter than the operator's own level in the RULES table
+as read on this run (left-associative), and the table's instruction(s) are emitted after both operands. -/
+theorem binary_operator_table (canAssign : Bool) :
+    ∀ e ∈ binaryTable, Fns.rule_precedence e.1 = e.2.1
+      ∧ Fns.parse_binary canAssign e.1 = .ok ((), binarySkeleton e.2.2.1 e.2.2.2) := by
+  intro e he
+  simp only [binaryTable, List.mem_cons, List.not_mem_nil, or_false] at he
+  rcases he with h | h | h | h | h | h | h | h | h | h | h | h | h | h | h | h <;> subst h <;> exact ⟨rfl, rfl⟩
+
+/-- ... and a token that is no binary operator makes `binary` emit nothing after the operand. -/
+theorem binary_other_tokens_emit_nothing (canAssign : Bool) (k : Fns.TokenKind) (hk : k ∉ binaryTable.map (·.1))
+    (p : Fns.Precedence) (hp : Fns.precedence_from (Fns.Precedence.discr (Fns.rule_precedence k) + 1) = .ok p) :
+    Fns.parse_binary canAssign k = .ok ((), [parsePrec p]) := by
+  have hadd : Rs.iadd .usize (Fns.Precedence.discr (Fns.rule_precedence k)) 1 = .ok (Fns.Precedence.discr (Fns.rule_precedence k) + 1) := by
+    apply iadd_usize_ok
+    · cases Fns.rule_precedence k <;> simp [Fns.Precedence.discr]
+    · cases Fns.rule_precedence k <;> simp [Fns.Precedence.discr]
+  unfold Fns.parse_binary
+  simp only [hadd, Rs.M.bind_ok, hp]
+  cases k <;> first | rfl | (exfalso; revert hk; decide)
+
+/-- The operator table above is the language reference's: the tokens handled by `binary` in the reference table of C05
+(Props/C05Tables.lean `InfixLevels`) are exactly the tokens of `binaryTable`, each at the same level. -/
+theorem binary_table_is_the_reference_table :
+    (binaryTable.all fun e => Props.C05Tables.InfixLevels.contains (Fns.TokenKind.name e.1, "binary", Fns.Precedence.name e.2.1)) = true
+      ∧ ((Props.C05Tables.InfixLevels.filter (fun e => e.2.1 == "binary")).all fun e =>
+          (binaryTable.map fun b => (Fns.TokenKind.name b.1, Fns.Precedence.name b.2.1)).contains (e.1, e.2.2)) = true := by
+  constructor <;> decide +kernel
+
+/-- Non-vacuity of `binary_other_tokens_emit_nothing`: `(` is no binary operator, its level (Call) has a successor. -/
+example : Fns.TokenKind.LeftParen ∉ binaryTable.map (·.1)
+    ∧ Fns.precedence_from (Fns.Precedence.discr (Fns.rule_precedence .LeftParen) + 1) = .ok .Primary := by
+  constructor
+  · decide
+  · rfl
+
+/-- The prefix operators. -/
+theorem unary_operator_table (canAssign : Bool) :
+    ∀ e ∈ unaryTable, Fns.parse_unary canAssign e.1 = .ok ((), unarySkeleton e.2) := by
+  intro e he
+  simp only [unaryTable, List.mem_cons, List.not_mem_nil, or_false] at he
+  rcases he with h | h | h <;> subst h <;> rfl
+
+/-- Short-circuit operators and the range operator. -/
+theorem and_skeleton (c : Bool) (j : Int) : Fns.parse_and c j = .ok ((), andSkeleton j) := rfl
+theorem or_skeleton (c : Bool) (j1 j2 : Int) : Fns.parse_or c j1 j2 = .ok ((), orSkeleton j1 j2) := rfl
+theorem dotdot_skeleton (c : Bool) : Fns.parse_dotdot c = .ok ((), dotdotSkeleton) := rfl
+
+/-! ## Declarations, scopes, `for` -/
+
+theorem var_declaration_skeleton (g : BitVec 16) (hasInit : Bool) :
+    Fns.var_declaration g hasInit = .ok ((), varDeclSkeleton g hasInit) := by
+  cases hasInit <;> rfl
+
+theorem expression_statement_skeleton : Fns.expression_statement = .ok ((), exprStmtSkeleton) := rfl
+
+theorem end_scope_skeleton (depth after : Int) (h1 : 1 ≤ depth) (h2 : depth ≤ 18446744073709551615) :
+    Fns.end_scope depth after = .ok ((), after, endScopeSkeleton depth) := by
+  unfold Fns.end_scope endScopeSkeleton
+  rw [isub_usize_ok _ _ (by omega) (by omega)]
+  rfl
+
+/-- Leaving a scope that was never entered (depth 0) would be an arithmetic fault - the translation keeps it. -/
+theorem end_scope_underflow (after : Int) : Fns.end_scope 0 after = .panic := by
+  unfold Fns.end_scope
+  rw [isub_usize_panic _ _ (by omega)]
+  rfl
+
+theorem begin_scope_skeleton (depth : Int) (h0 : 0 ≤ depth) (h : depth + 1 ≤ 18446744073709551615) :
+    Fns.begin_scope depth = .ok ((), depth + 1, [storeDepth (depth + 1)]) := by
+  unfold Fns.begin_scope
+  rw [iadd_usize_ok _ _ (by omega) h]
+  rfl
+
+theorem define_variable_skeleton (g : BitVec 16) (depth : Int) :
+    Fns.define_variable g depth = .ok ((), defineVarSkeleton depth) := by
+  unfold Fns.define_variable defineVarSkeleton
+  by_cases h : depth > 0 <;> simp [h, call0, emitOp, opByte]
+
+/-- `for v in e { ... }` -/
+theorem for_statement_skeleton (l0 : List (String × Option Int × Bool)) (l2 l3 : List (String × Option Int × Bool)) (addOk : Bool)
+    (iterName : BitVec 16) (start depth exitJump : Int) (popped : Except Fns.CompilerError Unit)
+    (l26 l28 : List (String × Option Int × Bool)) (h3 : 1 ≤ l3.length) (hlen : (l3.length : Int) ≤ 18446744073709551615) :
+    ∃ out, Fns.for_statement l0 true l2 l3 addOk iterName (some (start, depth)) exitJump popped l26 l28
+      = .ok ((), out, forSkeleton ((l3.length : Int) - 1) iterName addOk start exitJump popped) := by
+  unfold Fns.for_statement forSkeleton
+  have hsub : Rs.isub .usize (l3.length : Int) 1 = .ok ((l3.length : Int) - 1) := isub_usize_ok _ _ (by omega) (by omega)
+  cases addOk <;> cases popped <;>
+    simp [Rs.len, hsub, Rs.unwrap, call0, matchTok, emitOp, opByte, consume, emitJump, patchJump, reportErr]
+
+/-- Without a loop variable name the statement is given up at once (one located error, nothing emitted but the scope entry). -/
+theorem for_statement_needs_a_name (l0 l2 l3 : List (String × Option Int × Bool)) (addOk : Bool) (iterName : BitVec 16)
+    (hd : Option (Int × Int)) (exitJump : Int) (popped : Except Fns.CompilerError Unit) (l26 l28 : List (String × Option Int × Bool)) :
+    Fns.for_statement l0 false l2 l3 addOk iterName hd exitJump popped l26 l28
+      = .ok ((), l2, [call0 "self.begin_scope", matchTok .Identifier, ⟨"self.error_at_current", [.s "Expected loop variable name."]⟩]) := by
+  rfl
+
+/-- The iteration protocol as compiled: within one pass the order is IterNext, store, test, pop, body, jump back; the jump back goes to the
+loop start the compiler's bookkeeping recorded (the IterNext), the exit jump is patched right behind it and is followed by the pop of the
+stop marker's copy. -/
+theorem for_protocol_order (lv : Int) (n : BitVec 16) (ok : Bool) (s x : Int) (p : Except Fns.CompilerError Unit) :
+    ((forSkeleton lv n ok s x p).drop (if ok then 13 else 14)).take 13 =
+      [call0 "self.compiler().current_loop_header",
+       emitOp .IterNext, ⟨"self.emit_bytes", [opByte .SetLocal, .n (Rs.bvOfInt 8 lv).toNat]⟩, emitJump .JumpIfStopIter, emitOp .Pop,
+       consume .LeftBrace "Expected '{' after loop expression.", call0 "self.begin_scope", call0 "self.block", call0 "self.end_scope",
+       ⟨"self.emit_loop", [.i s]⟩, patchJump x, emitOp .Pop, call0 "self.compiler().pop_loop"]
+      ∧ (forSkeleton lv n ok s x p).getLast? = some (call0 "self.end_scope") := by
+  cases ok <;> cases p <;> simp [forSkeleton]
+
 #print axioms emit_return_skeleton
 #print axioms throw_statement_skeleton
 #print axioms return_statement_skeleton
@@ -135,6 +247,22 @@ theorem condition_value_popped_on_both_sides (a b : Int) (c d : Bool) (p : Excep
 #print axioms while_statement_skeleton
 #print axioms if_statement_skeleton
 #print axioms condition_value_popped_on_both_sides
+#print axioms binary_operator_table
+#print axioms binary_other_tokens_emit_nothing
+#print axioms binary_table_is_the_reference_table
+#print axioms unary_operator_table
+#print axioms and_skeleton
+#print axioms or_skeleton
+#print axioms dotdot_skeleton
+#print axioms var_declaration_skeleton
+#print axioms expression_statement_skeleton
+#print axioms end_scope_skeleton
+#print axioms end_scope_underflow
+#print axioms begin_scope_skeleton
+#print axioms define_variable_skeleton
+#print axioms for_statement_skeleton
+#print axioms for_statement_needs_a_name
+#print axioms for_protocol_order
 
 /-- Non-vacuity: the hypotheses of `try_statement_skeleton` are met by a try/catch statement at position 7 of a chunk. -/
 example : ((List.replicate 7 (0 : BitVec 8)).length : Int) + 2 ≤ 18446744073709551615 ∧ (true = true → true = true) ∧ (true = true ∨ false = true) := by
